@@ -99,6 +99,23 @@ LeafCases ==
       WithPath(Case(ObjReq, Obj(<< <<Str("a"), I64(1)>> >>), Obj(<< <<Str("a"), I64(3)>> >>),
                     Obj(<< <<Str("a"), I64(1)>> >>), Some(Obj(<< <<Str("a"), I64(3)>> >>)), "above_max", ""), <<"a">>) }
 
+\* every leaf kind corrupted with every wrong-type class: whatever representation the leaf is handed, the
+\* rejection has to be a constraint error carrying the path
+LeafKinds ==
+    { [s |-> PTA, good |-> I64(1), ngood |-> I64(1)], [s |-> PTF, good |-> F64(2), ngood |-> F64(2)], [s |-> PTB, good |-> Str("a"), ngood |-> Str("a")],
+      [s |-> BoolS, good |-> B(TRUE), ngood |-> B(TRUE)], [s |-> PES, good |-> Str("a"), ngood |-> Str("a")], [s |-> PEI, good |-> I64(1), ngood |-> I64(1)],
+      [s |-> EnumStrS(<<"a", "b">>, TRUE), good |-> Str("a"), ngood |-> S("named", "a")],
+      [s |-> PatternS, good |-> Str("a"), ngood |-> Re("a")], [s |-> AnyS, good |-> I64(1), ngood |-> I64(1)],
+      [s |-> IntS(None, None, Some("sec")), good |-> Str("1s"), ngood |-> I64(1)] }
+WrongClasses ==
+    { Nil, L("any", <<>>), L("any", <<I64(1)>>), L("typed", <<Str("a")>>), L("bytes", <<I("uint8", 1)>>), M("any_any", <<>>), M("string_any", << <<Str("a"), I64(1)>> >>),
+      J("struct"), J("ptr"), J("tag"), J("time"), J("bigint"), F64(3), F("float32", 3), FS("float64", "nan"), FS("float64", "+inf"), B(TRUE), I64(2), I("uint64", IMax + 1),
+      Str("abc"), Str("#empty"), Str("["), S("named", "a"), Re("a") }
+WrongTypeCases ==
+    { Case(k.s, k.good, w, k.ngood, IF Valid(k.s, w).ok = "no" THEN Some(w) ELSE None, "wrong_type", "") :
+        k \in LeafKinds, w \in {x \in WrongClasses : TRUE} }
+AllLeafCases == LeafCases \cup {c \in WrongTypeCases : Unser(c.s, c.bad).ok = "no" \/ c.nbad.some}
+
 \* ------------------------------------------------------------------ containers on the way
 ContainerKindsOnPath == {"list", "map", "imap", "emap", "object", "dobject", "oneof", "struct"}
 NB(c, mk(_)) == IF c.nbad.some THEN Some(mk(c.nbad.v)) ELSE None
